@@ -109,6 +109,19 @@ static int mutate_marker (MEMF *m, const CORP *base, int idx, int kind, long spa
 	snprintf (desc, dlen, "chunk#%d(%.4s)@%ld kind %d", idx, base->d + found, found, kind) ;
 	return 1 ;
 }
+
+/* systematic field sweep for the containers with small fixed headers: every 2-byte aligned offset in the first 'span' bytes x 14 hostile 32-bit values
+** (7 values, both byte orders) written over the 4 bytes there.  returns 0 when off is past the span. */
+#define MUTATE_FIELD_KINDS 14
+static int mutate_field (MEMF *m, const CORP *base, int idx, int kind, long span, char *desc, size_t dlen)
+{	static const uint32_t vals [7] = { 0, 1, 0x7fffffff, 0xffffffff, 0x80000000, 10000001, 0x00010000 } ; long off = 2L * idx ;
+	if (span > base->len - 4) span = base->len - 4 ;
+	if (off >= span) return 0 ;
+	mv_from (m, base->d, base->len) ; m->cap = m->len + 1 ;
+	put32 (m->d + off, vals [kind >> 1], kind & 1) ;
+	snprintf (desc, dlen, "u32@%ld=0x%x%s", off, vals [kind >> 1], (kind & 1) ? "BE" : "LE") ;
+	return 1 ;
+}
 #define MUTATE_MARKER_KINDS 16
 
 #endif
